@@ -34,23 +34,29 @@ type apiHandle struct {
 	wm  *masswallet.WalletManager
 }
 
-var apiHandles = map[*World]*apiHandle{}
-
 // apiSrv returns an APIServer bound to the world's current WalletManager (rebuilt after a restart).
+// The handle lives in the World itself (a process-wide table would keep every world of the run alive).
 func (w *World) apiSrv(t *rapid.T) *api.APIServer {
-	h := apiHandles[w]
-	if h != nil && h.wm == w.env.W {
+	if h := w.apiH; h != nil && h.wm == w.env.W {
 		return h.srv
 	}
+	w.apiForget()
 	srv, err := api.NewAPIServer(&sim.Server{N: w.node}, w.env.W, func() {}, w.env.Cfg)
 	if err != nil {
 		t.Fatalf("HARNESS: api server: %v", err)
 	}
-	apiHandles[w] = &apiHandle{srv: srv, wm: w.env.W}
+	w.apiH = &apiHandle{srv: srv, wm: w.env.W}
 	return srv
 }
 
-func (w *World) apiForget() { delete(apiHandles, w) }
+// apiForget drops the handle; the gRPC server object inside (never served) is stopped so that
+// nothing process-wide keeps it - and through it the wallet - alive.
+func (w *World) apiForget() {
+	if w.apiH != nil {
+		w.apiH.srv.Stop()
+		w.apiH = nil
+	}
+}
 
 // apiCode extracts the API error code (api.ErrAPI...) of a handler error; 0 for nil.
 func apiCode(err error) uint32 {
